@@ -18,6 +18,11 @@ type Config struct {
 	Replay string
 	Work   string // scratch directory (removed by the caller)
 	Prop   string // property whose projection/oracle is wanted ("" = all)
+	// CaseFile: a replay file written by bin/check; the recorded failing input is run first through the
+	// lane (exact replay), in addition to the ordinary run. CaseData is its content (read before privileges
+	// are dropped).
+	CaseFile string
+	CaseData []byte
 }
 
 var lanes = map[string]Lane{}
@@ -32,8 +37,19 @@ func main() {
 	replay := flag.String("replay", "", "replay file")
 	work := flag.String("work", "", "scratch directory")
 	prop := flag.String("prop", "", "property id (projection)")
+	caseFile := flag.String("case", "", "replay file of bin/check: run its recorded input first through the lane (exact replay)")
 	uid := flag.Int("uid", 0, "drop privileges to this uid/gid before running the lane (the work directory is chowned first)")
 	flag.Parse()
+	var caseData []byte
+	if *caseFile != "" {
+		// read while still privileged (replay files may live where an unprivileged lane cannot read)
+		b, err := os.ReadFile(*caseFile)
+		if err != nil {
+			fmt.Fprintln(os.Stderr, "case file:", err)
+			os.Exit(2)
+		}
+		caseData = b
+	}
 	var outF *os.File
 	if *uid != 0 {
 		if *out != "-" && *out != "" {
@@ -74,8 +90,9 @@ func main() {
 		fmt.Fprintf(os.Stderr, "unknown lane %q\n", *lane)
 		os.Exit(2)
 	}
-	cfg := &Config{Seed: *seed, N: *n, Tier: *tier, Driver: *driver, Replay: *replay, Work: *work, Prop: *prop}
+	cfg := &Config{Seed: *seed, N: *n, Tier: *tier, Driver: *driver, Replay: *replay, Work: *work, Prop: *prop, CaseFile: *caseFile, CaseData: caseData}
 	rep := NewReport(*lane, *seed)
+	rep.prop = *prop
 	f(cfg, rep)
 	if outF != nil {
 		*out = "-"
